@@ -556,7 +556,7 @@ func c01Case(rt *rapid.T, rec *vstat.Rec) {
 		deadline := time.Now().Add(40 * time.Second)
 		for time.Now().Before(deadline) {
 			for _, s := range []*store.Store{a2, b} {
-				if s != nil && s.IsLeader() && s.Barrier() == nil {
+				if s != nil && s.IsLeader() && store.G8aBarrier(s, 10*time.Second) == nil {
 					return s
 				}
 			}
